@@ -889,3 +889,36 @@ Proof.
     rewrite app_nth2 by (rewrite LEN'; lia). rewrite LEN', Nat.sub_diag. cbn. repeat split; reflexivity.
 Qed.
 Local Transparent spawn.
+
+(* the output side: the blocking ROUND_ROBIN worker's block touches no edge other than the out-edge it drew *)
+Theorem worker_round_robin_touches_one_edge w p :
+  let n := pown (me w p) in let nd := get_node w n in
+  ppc (me w p) = 1%nat -> noutsel nd = PRoundRobin -> nblocking nd = true -> nouts nd <> [] ->
+  (n < length (wnodes w))%nat ->
+  only_edge (nth (noutptr nd mod length (nouts nd)) (nouts nd) 0%nat) w (fst (worker_block w p)).
+Proof.
+  intros n nd PC SEL NB NE L. unfold worker_block. fold n. fold nd. rewrite PC, SEL.
+  set (w1 := upd_node w n (fun x => x <| nsumproc ::= fun v => v + (wnow w - pt0 (me w p)) |>)).
+  assert (G1 : get_node w1 n = nd <| nsumproc ::= fun v => v + (wnow w - pt0 (me w p)) |>).
+  { unfold w1, nd, get_node, upd_node. cbn [wnodes set]. simpl. apply nth_upd_eq. exact L. }
+  unfold draw_sel. rewrite G1. cbn [noutsel noutptr nouts set]. simpl. rewrite SEL.
+  set (k := noutptr nd). set (m := length (nouts nd)).
+  assert (M : (0 < m)%nat) by (unfold m; destruct (nouts nd); [congruence|simpl; lia]).
+  assert (IR : in_range (Z.of_nat k mod Z.of_nat m) m = true).
+  { unfold in_range. pose proof (Z.mod_pos_bound (Z.of_nat k) (Z.of_nat m)) as B.
+    apply andb_true_iff. split; [apply Z.leb_le|apply Z.ltb_lt]; lia. }
+  rewrite IR. cbn [negb]. rewrite NB.
+  assert (TN : Z.to_nat (Z.of_nat k mod Z.of_nat m) = (k mod m)%nat).
+  { rewrite <- Nat2Z.inj_mod. apply Nat2Z.id. }
+  rewrite TN.
+  set (w3 := logw (upd_node w1 n (fun x => x <| noutptr ::= S |>)) (LSel n true (k mod m))).
+  destruct (set_thread_shape w3 n p true) as (T1 & _).
+  set (w4 := set_thread w3 n p true) in *.
+  destruct (update_state_rep_shape w4 n) as (B1 & _).
+  set (w5 := update_state_rep w4 n) in *.
+  set (w6 := upd_proc w5 p (fun x => x <| pt1 := wnow w5 |>)).
+  pose proof (e_reserve_put_only w6 (nth (k mod m) (nouts nd) 0%nat) p) as C.
+  destruct (e_reserve_put w6 (nth (k mod m) (nouts nd) 0%nat) p) as [w7 t] eqn:E7. cbn [fst] in *.
+  eapply only_edge_trans; [|eapply only_edge_trans; [exact C|apply only_edge_edges; reflexivity]].
+  apply only_edge_edges. unfold w6. cbn [wedges upd_proc set]. simpl. rewrite B1, T1. reflexivity.
+Qed.
